@@ -20,7 +20,8 @@
 //	(1) conn.Bootstrap(); peer returns senderHosted(7)  -> import client A (generation 0)
 //	(2) goroutine G1: A.SendCall(...), parked inside PlaceArgs      (A.calls == 1)
 //	(3) goroutine G2: A.Release()   last reference: refs == 0, but Shutdown must
-//	                                wait for G1's call to leave Send
+//	                                wait for G1's call to leave Send (the test
+//	                                confirms refs == 0 through a WeakClient)
 //	(4) peer: Bootstrap + Call on the conn's own bootstrap capability with
 //	    params cap table [senderHosted(7)]
 //	        -> addImport(7): weak ref to A is dead -> generation 1, client B
@@ -110,36 +111,66 @@ func TestF09_ImportClientShutdownNilEntry(t *testing.T) {
 		t.Fatal("G1 did not reach PlaceArgs")
 	}
 
-	// 3. G2: release the last reference to A.
-	var g2stack string // written before the send on g2done
-	g2done := make(chan interface{}, 1)
-	go func() {
-		defer func() {
-			p := recover()
-			if p != nil {
-				g2stack = stackFrames(string(debug.Stack()), "importClient", "Client).Release")
-			}
-			g2done <- p
+	// 3. Release the last reference to A.  Whichever goroutine drops the
+	// reference count to zero ("G2") blocks inside Client.Release until G1's
+	// call has left Send, and then runs importClient.Shutdown.  The weak
+	// reference is used to learn when the count has really reached zero;
+	// probing it takes (and gives back) a temporary reference, so any of the
+	// releasing goroutines may end up being G2.  All of them recover panics.
+	type relResult struct {
+		p     interface{}
+		stack string
+	}
+	relDone := make(chan relResult, 4096)
+	started := 0
+	releaseAsync := func(c *capnp.Client) {
+		started++
+		go func() {
+			var r relResult
+			defer func() {
+				if r.p = recover(); r.p != nil {
+					r.stack = stackFrames(string(debug.Stack()), "importClient", "Client).Release")
+				}
+				relDone <- r
+			}()
+			c.Release()
 		}()
-		a.Release()
-	}()
-	// Wait until A's reference count is really zero.
+	}
+	releaseAsync(a)
 	deadline := time.Now().Add(hangTimeout)
 	for {
 		extra, ok := weakA.AddRef()
 		if !ok {
-			break
+			break // reference count is zero and stays zero
 		}
-		go extra.Release() // some other reference existed; drop ours again
+		releaseAsync(extra)
 		if time.Now().After(deadline) {
 			t.Fatal("import client A still has references 2s after Release")
 		}
 		time.Sleep(time.Millisecond)
 	}
-	select {
-	case p := <-g2done:
-		t.Fatalf("premise broken: A.Release() finished (panic=%v) while a call is still inside Send", p)
-	default:
+	// All releasers but G2 return promptly; G2 must still be blocked.
+	finished := 0
+	collect := func(d time.Duration) (panicked *relResult) {
+		timeout := time.After(d)
+		for finished < started {
+			select {
+			case r := <-relDone:
+				finished++
+				if r.p != nil {
+					return &r
+				}
+			case <-timeout:
+				return nil
+			}
+		}
+		return nil
+	}
+	if r := collect(50 * time.Millisecond); r != nil {
+		t.Fatalf("premise broken: a Release panicked while G1's call is still inside Send: %v\n%s", r.p, r.stack)
+	}
+	if finished == started {
+		t.Fatal("premise broken: all Release calls returned while a call is still inside Send")
 	}
 
 	// 4. The peer hands import 7 to the conn again; client B (generation 1)
@@ -199,13 +230,12 @@ func TestF09_ImportClientShutdownNilEntry(t *testing.T) {
 	case <-timeAfter():
 		t.Fatal("G1's SendCall did not return")
 	}
-	select {
-	case p := <-g2done:
-		if p != nil {
-			t.Fatalf("DEFECT F9: Release of the old-generation import client panicked in importClient.Shutdown: %v\n%s", p, g2stack)
-		}
-	case <-timeAfter():
-		t.Fatal("A.Release() did not return within 2s")
+	r := collect(hangTimeout)
+	if r != nil {
+		t.Fatalf("DEFECT F9: Release of the old-generation import client panicked in importClient.Shutdown: %v\n%s", r.p, r.stack)
+	}
+	if finished != started {
+		t.Fatalf("%d of %d Release calls did not return within 2s", started-finished, started)
 	}
 	cancel()
 }
